@@ -4,6 +4,10 @@ Driver for C17: runs `Uniflow.Group.decode` on table-defined decoders.
   new D T V r_0 … r_{D*T*V-1}   decoders as a result table, index (j*T + t)*V + v,
                                 r ::= u | o<k> | e<k>            → "ok"
   dec t v                       decode source (type t, value v)   → o<k> | u | e<k> | nil
+  asm C TT T V b… r…            a DecodeAssembler: C compilers in `Add` order, TT target types,
+                                b = C*TT bits "compiler j compiles target type tt" (index j*TT+tt),
+                                r = C*TT*T*V decoder results (index ((j*TT+tt)*T+t)*V+v) → "ok"
+  adec tt t v                   assembler decode into target type tt                → result
 -/
 import Uniflow.Driver.Core
 import Uniflow.Model.Group
@@ -17,6 +21,11 @@ structure St where
   v : Nat := 0
   tbl : Array (R Nat) := #[]
   cache : Cache := []
+  -- assembler
+  ac : Nat := 0
+  att : Nat := 0
+  bits : Array Bool := #[]
+  memo : Memo := Memo.empty
 
 def parseR (s : String) : Option (R Nat) :=
   if s = "u" then some .unsupported
@@ -35,6 +44,18 @@ def decoders (st : St) : List (Nat × Nat → R Nat) :=
     if s.1 < st.t ∧ s.2 < st.v then st.tbl.getD ((j * st.t + s.1) * st.v + s.2) .unsupported
     else .unsupported
 
+/-- Compilers in assembler order: `Add` prepends, so the last added comes first. -/
+def compilers (st : St) : List (Compiler (Nat × Nat) Nat) :=
+  (List.range st.ac).foldl (fun cs j =>
+    addCompiler cs (fun tt =>
+      if tt < st.att ∧ st.bits.getD (j * st.att + tt) false then
+        some (fun (s : Nat × Nat) =>
+          if s.1 < st.t ∧ s.2 < st.v then st.tbl.getD (((j * st.att + tt) * st.t + s.1) * st.v + s.2) .unsupported
+          else .unsupported)
+      else none)) []
+
+def parseBit (s : String) : Option Bool := if s = "1" then some true else if s = "0" then some false else none
+
 def step (st : St) : List String → St × String
   | "new" :: d :: t :: v :: rs =>
     match d.toNat?, t.toNat?, v.toNat?, rs.mapM parseR with
@@ -42,6 +63,24 @@ def step (st : St) : List String → St × String
       if rs.length = d * t * v then ({ d, t, v, tbl := rs.toArray, cache := [] }, "ok")
       else (st, "bad-op")
     | _, _, _, _ => (st, "bad-op")
+  | "asm" :: c :: tt :: t :: v :: rest =>
+    match c.toNat?, tt.toNat?, t.toNat?, v.toNat? with
+    | some c, some tt, some t, some v =>
+      match (rest.take (c * tt)).mapM parseBit, (rest.drop (c * tt)).mapM parseR with
+      | some bs, some rs =>
+        if bs.length = c * tt ∧ rs.length = c * tt * t * v then
+          ({ ac := c, att := tt, t, v, bits := bs.toArray, tbl := rs.toArray, memo := Memo.empty }, "ok")
+        else (st, "bad-op")
+      | _, _ => (st, "bad-op")
+    | _, _, _, _ => (st, "bad-op")
+  | ["adec", tt, t, v] =>
+    match tt.toNat?, t.toNat?, v.toNat? with
+    | some tt, some t, some v =>
+      if tt < st.att ∧ t < st.t ∧ v < st.v then
+        let (r, m) := asmDecode Prod.fst (compilers st) st.memo tt (t, v)
+        ({ st with memo := m }, showR r)
+      else (st, "bad-op")
+    | _, _, _ => (st, "bad-op")
   | ["dec", t, v] =>
     match t.toNat?, v.toNat? with
     | some t, some v =>
